@@ -635,6 +635,11 @@ namespace occa {
         token_t *token = NULL;
         (*this) >> token;
 
+        // The remaining input might not produce any token
+        if (!token) {
+          break;
+        }
+
         if (token->type() & tokenType::newline) {
           incrementNewline();
           lineTokens.push_back(token);
